@@ -137,6 +137,16 @@ def _coll_ops(n_ops, ops=("add", "remove", "concat", "iterate")):
                 s = _mk_stream(h, made, h.choice(f"name{step}", NAMES)); made += 1
                 c.add(s)
                 ghost.append(s)
+            elif op == "overwrite":
+                # explicit overwrite of an existing key: the member under that key is replaced, nothing else changes
+                keys = list(c._streams.keys())
+                if not keys:
+                    continue
+                k = h.choice(f"ow{step}", keys) if len(keys) > 1 else keys[0]
+                victim = c._streams[k]
+                s = _mk_stream(h, made, k); made += 1
+                c.add(s, prevent_overwrite=False)
+                ghost = [s if g is victim else g for g in ghost]
             elif op == "add_many":
                 s1 = _mk_stream(h, made, h.choice(f"name{step}", NAMES)); made += 1
                 s2 = _mk_stream(h, made, h.choice(f"name{step}b", NAMES)); made += 1
@@ -224,6 +234,8 @@ def obligations():
                           doc="no member lost or replaced, len() = members held, iteration = members in sort-key order"))
     obs.append(Obligation("C19.coll.many.b", _coll_ops(2, ("add_many", "set_key", "remove")), kind="bounded", bound="every sequence of 2 operations from {add_many (2 members), "
                           "set_sort_key, remove}; key alphabet {a, b, a_1}", functions=fs_coll, max_paths=60000))
+    obs.append(Obligation("C19.coll.overwrite.b", _coll_ops(4, ("add", "iterate", "overwrite")), kind="bounded", bound="every sequence of 4 operations from {add, iterate, "
+                          "add(prevent_overwrite=False) onto an existing key}; key alphabet {a, b, a_1}", functions=fs_coll, max_paths=200000))
     obs.append(Obligation("C19.coll.ops4.b", _coll_ops(4), kind="bounded", tier="thorough", bound="as C19.coll.ops.b with 4 operations", functions=fs_coll, max_paths=2000000))
     obs.append(Obligation("C19.coll.replace.b", ob_replace, kind="bounded", bound="1..3 members, names from {a, b, a_1}", functions=[StreamCollection.replace]))
     obs.append(Obligation("C19.coll.cache.b", ob_stale_cache, kind="bounded", bound="2 members, one key reassigned after an iteration",
